@@ -212,21 +212,35 @@ theorem backward_visits_are_consecutive (e : Env) (t : Nat) (fuel : Nat) (σ : S
 
 /-! ### teams -/
 
-/-- **C08 for unlimited forward teams** (corollary of `C07.team_earliest_fit`): between the bound slot and any slot the team is
+/-- **C08 for forward teams** (corollary of `C07.team_earliest_fit`): between the bound slot and any slot the team is
     booked in, every slot in which ALL members are on shift and not on leave carries a booking on some member — the team's own
-    (then on every member), or another task's: the team never waits while all of its resources could work for it -/
+    (then on every member), or another task's — or some limit of a member or of the task has no room left there for the whole
+    team: the team never waits while all of its resources could work for it -/
 theorem no_idle_final_team (e : Env) (wf : WF e) (tr : Tree e) (t : Nat) (sel : List Nat) (hel : TeamU e t sel)
     (hs : ((runScenario e).tst t).scheduled = true) (hf : ((runScenario e).tst t).forward = true) :
     ∀ L m0, m0 ∈ sel → usageOf ((runScenario e).led.get m0 L).usage t ≠ none →
       ∀ i, boundSlot e (runScenario e) t ≤ i → i ≤ L → (∀ m ∈ sel, e.onShift m i = true ∧ e.leaveMark m i = false) →
-        ∃ m ∈ sel, ((runScenario e).led.get m i).usage ≠ [] := by
+        (∃ m ∈ sel, ((runScenario e).led.get m i).usage ≠ []) ∨ TeamTight e (runScenario e) t sel i := by
   obtain ⟨order, rest, _, hT⟩ := runScenario_placementT e wf tr
   obtain ⟨post, pre, _, hfit⟩ := hT t sel hel
     (runScenario_scheduled_done e t ⟨hel.el.leaf, hel.el.effort, hel.el.nomile⟩ hs) hf
   intro L m0 hm0 hL i hb hi hall
-  rcases hfit L m0 hm0 hL i hb hi hall with h1 | ⟨m, hm, t', _, h1⟩
-  · exact ⟨m0, hm0, usage_ne_nil_of_usageOf (h1 m0 hm0)⟩
-  · exact ⟨m, hm, usage_ne_nil_of_usageOf h1⟩
+  rcases hfit L m0 hm0 hL i hb hi hall with h1 | ⟨m, hm, t', _, h1⟩ | h1
+  · exact Or.inl ⟨m0, hm0, usage_ne_nil_of_usageOf (h1 m0 hm0)⟩
+  · exact Or.inl ⟨m, hm, usage_ne_nil_of_usageOf h1⟩
+  · exact Or.inr h1
+
+/-- unlimited forward teams: no limits anywhere, so an all-working slot in the interval is booked on some member -/
+theorem no_idle_final_team_unlimited (e : Env) (wf : WF e) (tr : Tree e) (t : Nat) (sel : List Nat) (hel : TeamU e t sel)
+    (hrl : ∀ m ∈ sel, resLimitIds e m = []) (htl : taskLimitIds e t = [])
+    (hs : ((runScenario e).tst t).scheduled = true) (hf : ((runScenario e).tst t).forward = true) :
+    ∀ L m0, m0 ∈ sel → usageOf ((runScenario e).led.get m0 L).usage t ≠ none →
+      ∀ i, boundSlot e (runScenario e) t ≤ i → i ≤ L → (∀ m ∈ sel, e.onShift m i = true ∧ e.leaveMark m i = false) →
+        ∃ m ∈ sel, ((runScenario e).led.get m i).usage ≠ [] := by
+  intro L m0 hm0 hL i hb hi hall
+  rcases no_idle_final_team e wf tr t sel hel hs hf L m0 hm0 hL i hb hi hall with h1 | h1
+  · exact h1
+  · exact (teamTight_unlimited hrl htl h1).elim
 
 /-- what makes "not available" mean "booked": in every state a scenario run ends in, a slot without entries still has room
     (a start-offset reservation or a team levelling never fills a slot by itself) and a marked slot carries an entry -/
@@ -289,11 +303,12 @@ theorem no_idle_final_alap_with_alternative (e : Env) (wf : WF e) (tr : Tree e) 
   (runScenario_doneIdleBAlt e wf tr t r1 r2 hel
     (runScenario_scheduled_done e t ⟨hel.el.leaf, hel.el.effort, hel.el.nomile⟩ hs) hf).2
 
-/-- **C08 for unlimited ALAP teams** (`Proofs/TeamBack`): after scheduling ANY well-formed project, every backward team task
-    reported as scheduled — several pairwise different unlimited leaf resources, no limits on the task — ends no later than its
-    deadline (`deadlineG`), and between any slot `L` in which it is booked and the last slot before the deadline, every slot in
-    which ALL its members are on shift and not on leave carries the task on every member, or a booking on some member: the
-    team never ends earlier than it has to while all of its resources could still work for it. -/
+/-- **C08 for ALAP teams** (`Proofs/TeamBack`, `Proofs/TeamLimits`): after scheduling ANY well-formed project, every backward
+    team task reported as scheduled — several pairwise different leaf resources; members, groups, task and containers may carry
+    limits — ends no later than its deadline (`deadlineG`), and between any slot `L` in which it is booked and the last slot
+    before the deadline, every slot in which ALL its members are on shift and not on leave carries the task on every member, or
+    a booking on some member, or some limit has no room left there for the whole team (`TeamTight`, see `C07.teamTight_iff`):
+    the team never ends earlier than it has to while all of its resources could still work for it. -/
 theorem no_idle_final_alap_team (e : Env) (wf : WF e) (tr : Tree e) (t : Nat) (sel : List Nat) (hel : TeamUB e t sel)
     (hs : ((runScenario e).tst t).scheduled = true) (hf : ((runScenario e).tst t).forward = false) :
     (∃ v, ((runScenario e).tst t).stop = some v ∧ v ≤ deadlineG e (loopStart e) (runScenario e) t) ∧
@@ -301,8 +316,23 @@ theorem no_idle_final_alap_team (e : Env) (wf : WF e) (tr : Tree e) (t : Nat) (s
       ∀ i, L ≤ i → i ≤ e.idx (deadlineG e (loopStart e) (runScenario e) t) - 1 →
         (∀ m ∈ sel, e.onShift m i = true ∧ e.leaveMark m i = false) →
         (∀ m ∈ sel, usageOf ((runScenario e).led.get m i).usage t ≠ none) ∨
-        ∃ m ∈ sel, ((runScenario e).led.get m i).usage ≠ [] :=
+        (∃ m ∈ sel, ((runScenario e).led.get m i).usage ≠ []) ∨ TeamTight e (runScenario e) t sel i :=
   (runScenario_doneIdleBT e wf tr t sel hel
     (runScenario_scheduled_done e t ⟨hel.el.leaf, hel.el.effort, hel.el.nomile⟩ hs) hf).2
+
+/-- unlimited ALAP teams: no limits anywhere, so the third case cannot occur -/
+theorem no_idle_final_alap_team_unlimited (e : Env) (wf : WF e) (tr : Tree e) (t : Nat) (sel : List Nat) (hel : TeamUB e t sel)
+    (hrl : ∀ m ∈ sel, resLimitIds e m = []) (htl : taskLimitIds e t = [])
+    (hs : ((runScenario e).tst t).scheduled = true) (hf : ((runScenario e).tst t).forward = false) :
+    ∀ L m0, m0 ∈ sel → usageOf ((runScenario e).led.get m0 L).usage t ≠ none →
+      ∀ i, L ≤ i → i ≤ e.idx (deadlineG e (loopStart e) (runScenario e) t) - 1 →
+        (∀ m ∈ sel, e.onShift m i = true ∧ e.leaveMark m i = false) →
+        (∀ m ∈ sel, usageOf ((runScenario e).led.get m i).usage t ≠ none) ∨
+        ∃ m ∈ sel, ((runScenario e).led.get m i).usage ≠ [] := by
+  intro L m0 hm0 hL i h1 h2 hall
+  rcases (no_idle_final_alap_team e wf tr t sel hel hs hf).2 L m0 hm0 hL i h1 h2 hall with h3 | h3 | h3
+  · exact Or.inl h3
+  · exact Or.inr h3
+  · exact (teamTight_unlimited hrl htl h3).elim
 
 end SP.C08
